@@ -79,6 +79,15 @@ def batch_oracle(ctx, lines, impl):
         if fm is None:
             continue
         fi = qcommon.split_out(impl[i])
+        if fi[1] != fm[1] and fi[2] != fm[2]:
+            # another SQL text AND another value list: whatever happened to the text, the returned collection is not
+            # the statement's values in reading order (Spec/StmtValues.v, which the model's list is proved to be)
+            k = next((j for j, (a, c) in enumerate(zip(fi[2], fm[2])) if a != c), min(len(fi[2]), len(fm[2])))
+            verdicts[i] = ("the bound values are not the statement's values in reading order: position %d holds %s, the "
+                           "statement gives %s there (bound %d values, statement gives %d)" % (
+                               k + 1, fi[2][k] if k < len(fi[2]) else "nothing",
+                               fm[2][k] if k < len(fm[2]) else "nothing", len(fi[2]), len(fm[2])))
+            continue
         if fi[1] == fm[1]:
             same_sql += 1
             if fi[2] != fm[2]:
